@@ -3,13 +3,22 @@
 // Drives the real stir::KeyParser (get_keyword / standardise_keyword / add_key / add_vectorised_key / add_alias_key /
 // parse / parameter_info) and every class found at run time in the RegisteredObject registries.
 //   (a) line protocol (ops file / impl file) compared with the Lean model (lean/Driver/C17.lean):
-//         std x<s>, kw x<line>, cfg reset|key|alias …, parse x<text>, info, count <current> x<line>
+//         std x<s>, kw x<line>, cfg reset|key|alias …, parse x<text>, info, count <current> x<line>,
+//         pdfsseg <S> <axial…> | <min ring diffs…>|- | <max ring diffs…>|-
 //       inputs: keywords and lines of headers written by the library itself (Interfile image / projection data
-//       headers, parameter_info() of registered classes and of the probe tables) and grammar-aware mutations.
+//       headers, parameter_info() of registered classes and of the probe tables) and grammar-aware mutations; keys are
+//       registered in non-standard spellings, aliases with arbitrary spellings of alias AND target (incl. the aliases that the
+//       library registers itself, found by scanning its sources), texts use any spelling of key or alias; every modelled
+//       vectorised key type at index 0 / negative / in range / size+1 / beyond / wrapping; per-segment lists of a
+//       projection-data header (one list too short / too long / absent) through the real InterfilePDFSHeader.
 //   (b) property oracle on the implementation (<implfile>.oracle):
 //         - every registered parsable class: s1 = obj->parameter_info(); obj2 = parse(s1); s2 = obj2->parameter_info(); s1 == s2
-//           (also after seeded value replacements accepted by the class), each class in a forked child;
-//         - keyword matching ignores case / runs of " \t_!", aliases resolve, vectorised keys land at the index given;
+//           (also after seeded value replacements accepted by the class), each class in a forked child; classes that need
+//           external data are constructed from small files the harness writes itself (write_class_fixtures);
+//         - keyword matching ignores case / runs of " \t_!", aliases resolve (random spellings of registered key, named
+//           target, alias and line; the library's own aliases: header with alias spelling == header with target spelling),
+//           vectorised keys of all eight types land at the index given or are refused;
+//         - an accepted projection-data header has as many segments as 'matrix size [4]' and every per-segment list say;
 //         - KeyParser tables with random printable values: parameter_info -> parse -> parameter_info is the identity;
 //         - string lists are split and trimmed like scalar strings; input ending in a continuation backslash terminates;
 //         - the tables of an Interfile header have the number of elements that the header declares.
@@ -1720,7 +1729,7 @@ vectorised_oracle(vh::Rng& rng, bool thorough)
               }
             catch (std::bad_alloc&)
               {
-                throw;
+                tag = "bad_alloc"; // (the address space of this process is limited, see main)
               }
             catch (std::exception&)
               {
@@ -1804,6 +1813,12 @@ main(int argc, char** argv)
     h.set_warning_channel(&sink);
     h.set_error_channel(&sink);
     h.set_information_channel(&sink);
+  }
+  {
+    // a defect that sizes a container by a number found in the input must end in std::bad_alloc, not in tens of GB being touched
+    struct rlimit rl;
+    rl.rlim_cur = rl.rlim_max = 4UL << 30;
+    setrlimit(RLIMIT_AS, &rl);
   }
   const uint64_t seed = std::strtoull(argv[1], nullptr, 10);
   vh::Rng rng(seed * 1315423911ULL + 17);
@@ -2051,7 +2066,7 @@ main(int argc, char** argv)
         t.info();
       }
     std::vector<std::string> keys;
-    const int ntab = thorough ? 400 : 80;
+    const int ntab = thorough ? 600 : 160;
     for (int c = 0; c < ntab; ++c)
       {
         random_table(t, rng, keys);
